@@ -30,6 +30,7 @@ type propFile struct {
 	Bounded   []string    `json:"bounded"`
 	Extra     []string    `json:"extra"` // additional analyses: "globals" (C20 F1), "registry" (C03a)
 	Explain   string      `json:"explanation"`
+	Allow     map[string]string `json:"allow"` // obligation-name regexp -> reason: reported as ASSUMED (and listed in the evidence), not as a violation
 }
 
 type knownFinding struct {
@@ -97,7 +98,16 @@ func cmdCheck(args []string) {
 	replayDir := filepath.Join("/verif/replays", id)
 	os.MkdirAll(replayDir, 0o755)
 	violations := 0
+	for rx, why := range pf.Allow {
+		pf.Assume = append(pf.Assume, "allowed ("+rx+"): "+why)
+	}
 	report := func(name string, payload map[string]interface{}, confirmed bool) {
+		for rx, why := range pf.Allow {
+			if ok, _ := regexp.MatchString(rx, name); ok {
+				fmt.Printf("ASSUMED: property=%s %s (%s)\n", id, name, why)
+				return
+			}
+		}
 		violations++
 		slug := symSafe(name)
 		if len(slug) > 150 {
@@ -343,6 +353,8 @@ func writeEvidence(id, tier string, seed int, pf *propFile, extra map[string]int
 	usedContracts := map[string]bool{}
 	noContract := map[string]bool{}
 	inlined := map[string]bool{}
+	definesAll := map[string]bool{}
+	absAll := map[string]bool{}
 	notes := map[string]bool{}
 	notReach := []interface{}{}
 	for _, r := range results {
@@ -361,6 +373,12 @@ func writeEvidence(id, tier string, seed int, pf *propFile, extra map[string]int
 		}
 		for _, u := range r.NoContr {
 			noContract[u] = true
+		}
+		for _, u := range r.Defines {
+			definesAll[u] = true
+		}
+		for _, u := range r.AbsUsed {
+			absAll[u] = true
 		}
 		for _, u := range r.Inlined {
 			inlined[u] = true
@@ -426,6 +444,8 @@ func writeEvidence(id, tier string, seed int, pf *propFile, extra map[string]int
 		"contracts_relied_on":      sortedKeys(usedContracts),
 		"callees_without_contract_havocked_with_inferred_frame": sortedKeys(noContract),
 		"callees_inlined":          sortedKeys(inlined),
+		"definitional_clauses_assumed_at_call_sites": sortedKeys(definesAll),
+		"abstract_methods_and_predicate_definitions_used": sortedKeys(absAll),
 		"model_imprecisions":       sortedKeys(notes),
 		"functions_outside_reach":  notReach,
 		"not_decided":              pf.NotDecided,
